@@ -68,7 +68,11 @@ Definition local_cells (n : nat) (local : list nat) : list str :=
 Definition swap_cells (n : nat) (swaps : list (nat * nat * nat)) : list str :=
   fold_left (fun tmp s => let '(a, b, c) := s in upd c s_plus (upd b s_gap (upd a s_plus tmp)))
             swaps (repeat s_dot n).
-Definition cons_cells (n : nat) (c : list str) : list str := c ++ repeat [] (n - length c).
+(* mergeit with the identity merger: cell i receives item i; a cell longer than one character loses its '-';
+   cells beyond the consensus stay empty (a consensus longer than the alignment raises KeyError: not modelled) *)
+Definition merge_cell (s : str) : str :=
+  if existsb (Z.eqb 45) s && (1 <? length s)%nat then filter (fun c => negb (c =? 45)) s else s.
+Definition cons_cells (n : nat) (c : list str) : list str := map merge_cell c ++ repeat [] (n - length c).
 
 Fixpoint zip3 {A B C} (a : list A) (b : list B) (c : list C) : list (A * B * C) :=
   match a, b, c with
@@ -96,9 +100,12 @@ Definition msa_body (stamp : list str) (m : msa) : list str :=
 
 (* wl2qlc: a '#' line, the <msa id=.. ref=..> line (with a consensus attribute when the key is there), msa2str, </msa> *)
 Definition attr (k v : str) : str := k ++ 61 :: 34 :: v ++ [34].                 (* k=QUOTE v QUOTE *)
-Definition msa_header (ref : str) (k : Z) (m : msa) : str :=
-  60 :: s_msa ++ 32 :: attr s_idk (show_int k) ++ 32 :: attr s_refk ref
-  ++ (match m_cons m with Some c => 32 :: attr s_consensus (join [32] c) | None => [] end) ++ [62].
+Definition cons_attr (m : msa) : str :=
+  match m_cons m with Some c => 32 :: attr s_consensus (join [32] c) | None => [] end.
+(* what stands between '<' and '>' *)
+Definition msa_tag (ref : str) (k : Z) (m : msa) : str :=
+  s_msa ++ 32 :: attr s_idk (show_int k) ++ 32 :: attr s_refk ref ++ cons_attr m.
+Definition msa_header (ref : str) (k : Z) (m : msa) : str := 60 :: msa_tag ref k m ++ [62].
 Definition msa_block (ref : str) (e : Z * list str * msa) : list str :=
   let '(k, stamp, m) := e in [35] :: msa_header ref k m :: msa_body stamp m ++ [s_msa_close].
 (* an empty line, the line '# MSA reference: {0}', the blocks *)
@@ -178,9 +185,6 @@ Definition msa_lines (body : list str) : list (list str) :=
   map msa_cells (filter (fun l => negb (starts 35 l)) (match body with [] => [[]] | _ => body end)).
 Definition read_msa_body (body : list str) : res msa_read := list2msa (msa_lines body) msa_read0.
 
-Fixpoint assoc_str (k : str) (l : list (str * str)) : option str :=
-  match l with [] => None | (k', v) :: r => if str_eqb k k' then Some v else assoc_str k r end.
-
 (* meta['msa'][ref][int(id)] for every <msa> block, in file order *)
 Fixpoint read_msas (blocks : list block) : res (list (str * Z * msa_read)) :=
   match blocks with
@@ -189,11 +193,11 @@ Fixpoint read_msas (blocks : list block) : res (list (str * Z * msa_read)) :=
       if str_eqb (b_dtype b) s_msa then
         match block_keys (b_head b) with
         | Some keys =>
-            match assoc_str s_idk keys with
+            match assoc_last s_idk keys with
             | Some idv =>
                 match parse_int idv, read_msa_body (b_body b), read_msas rest with
                 | Some k, Ok m, Ok ms =>
-                    Ok ((match assoc_str s_refk keys with Some r => r | None => c_cogid end, k, m) :: ms)
+                    Ok ((match assoc_last s_refk keys with Some r => r | None => c_cogid end, k, m) :: ms)
                 | _, _, _ => Err
                 end
             | None => Err
@@ -210,6 +214,10 @@ Definition read_msa_section (lines : list str) : res (list (str * Z * msa_read))
 
 (* the guard of C13_msa_roundtrip *)
 Definition seg_okb (s : str) : bool := item_okb s && negb (last s 0 =? 46).
+(* a consensus segment also goes into the tag (no quote, no '>') and through mergeit (no '-' inside a longer cell) *)
+Definition cons_seg_okb (s : str) : bool :=
+  seg_okb s && negb (existsb (fun c => (c =? 34) || (c =? 62)) s)
+  && negb (existsb (Z.eqb 45) s && (1 <? length s)%nat).
 Definition taxon_okb (t : str) : bool := clean_strb t && negb (last t 0 =? 46).
 Fixpoint incr_fromb (lo : nat) (l : list nat) : bool :=
   match l with [] => true | x :: r => (lo <=? x)%nat && incr_fromb (S x) r end.
@@ -226,11 +234,14 @@ Definition msa_okb (m : msa) : bool :=
   && forallb taxon_okb (m_taxa m) && forallb (fun i => negb (i =? 0)) (m_ids m)
   && incr_fromb 0 (m_local m) && forallb (fun i => (i <? n)%nat) (m_local m)
   && swaps_okb 0 n (m_swaps m)
-  && match m_cons m with None => true | Some _ => false end.
+  && match m_cons m with
+     | None => true
+     | Some c => (length c =? n)%nat && forallb cons_seg_okb c        (* one consensus segment per column *)
+     end.
 
 (* what a block must come back as *)
 Definition expected_read (m : msa) : msa_read :=
-  mk_msa_read (m_ids m) (m_taxa m) (m_alm m) (map degap (m_alm m)) (m_local m) (m_swaps m) None.
+  mk_msa_read (m_ids m) (m_taxa m) (m_alm m) (map degap (m_alm m)) (m_local m) (m_swaps m) (m_cons m).
 
 (* ---- the state Alignments.add_alignments rebuilds from the columns ---- *)
 (* read.qlc.normalize_alignment: pad the rows with '-' to the longest, delete the columns that are all gaps *)
